@@ -39,3 +39,14 @@ pub mod policy {
     }
     pub use crate::policy::marksweepspace::native_ms::verif as native_ms;
 }
+
+/// Lock-free per-object protocols (`util::object_forwarding` and the `*_bit` modules are `pub(crate)`).
+pub mod protocols {
+    pub use crate::util::object_forwarding::{
+        attempt_to_forward, clear_forwarding_bits, forward_object, get_forwarding_status,
+        is_forwarded, is_forwarded_or_being_forwarded, read_forwarding_pointer,
+        spin_and_get_forwarded_object, state_is_being_forwarded,
+        state_is_forwarded_or_being_forwarded, write_forwarding_pointer,
+    };
+    pub use crate::util::verif_env;
+}
